@@ -33,12 +33,14 @@ impl<'a> Src<'a> {
 }
 
 fn num_lit(kind: &str, v: u32) -> String {
+  // a quarter of the literals of signed and float kinds carry a minus sign (`-5<i8>`, `-2.5`): negation applied directly to a literal
+  let neg = if (v / 27) % 4 == 1 && !kind.starts_with('u') && kind != "r64" && kind != "c64" { "-" } else { "" };
   match kind {
-    "f64" => format!("{}.{}", v % 9 + 1, [0, 5, 25][(v / 9) as usize % 3]),
-    "f32" => format!("{}.{}<f32>", v % 9 + 1, [0, 5, 25][(v / 9) as usize % 3]),
+    "f64" => format!("{}{}.{}", neg, v % 9 + 1, [0, 5, 25][(v / 9) as usize % 3]),
+    "f32" => format!("{}{}.{}<f32>", neg, v % 9 + 1, [0, 5, 25][(v / 9) as usize % 3]),
     "r64" => format!("{}/{}", v % 9 + 1, [7, 2, 3][(v / 9) as usize % 3]),
     "c64" => format!("{}+{}i", v % 9 + 1, (v / 9) % 7 + 2),
-    k => format!("{}<{}>", v % 9 + 1, k),
+    k => format!("{}{}<{}>", neg, v % 9 + 1, k),
   }
 }
 
